@@ -327,7 +327,8 @@ def run(tier, seed, acc, procs=None):
                         'moment claims are sample statistics with 6-sigma bounds (deterministic for the enumerated seeds), not distributional proofs',
                         'Gaussian shot noise only in its documented large-count regime (>= 1000 counts)'],
         'require': {'psd:non-square': 50, 'psd:square': 50, 'shot-poisson:square': 100, 'read:non-square': 50, 'seed-pairs': 1000,
-                    'cosmic-hit': 20, 'rejections': 10, 'history': 9, 'psd-rms-extreme': 100, 'prior-call-refused': 8},
+                    'rejections': 10, 'history': 9, 'psd-rms-extreme': 100},
+        'expect': {'cosmic-hit': 20, 'prior-call-refused': 8},
     }
 
 
